@@ -22,6 +22,7 @@ func init() {
 			{Name: "inputs/random-bytes", Count: core.FixedCount(20000, 600000), BlockIsViolation: true, Run: func(c *core.Ctx, idx int) { cdcnmon.RunC12Random(c, "bytes") }},
 			{Name: "inputs/token-soup", Count: core.FixedCount(20000, 600000), BlockIsViolation: true, Run: func(c *core.Ctx, idx int) { cdcnmon.RunC12Random(c, "tokens") }},
 			{Name: "inputs/mutated-documents", Count: core.FixedCount(30000, 800000), BlockIsViolation: true, Run: func(c *core.Ctx, idx int) { cdcnmon.RunC12Random(c, "mutated") }},
+			{Name: "inputs/deep-nests", Count: core.FixedCount(4000, 80000), BlockIsViolation: true, Run: func(c *core.Ctx, idx int) { cdcnmon.RunC12Deep(c) }},
 			{Name: "inputs/kind-context-mismatch", Count: core.FixedCount(cdcnmon.C12MismatchCases(), cdcnmon.C12MismatchCases()*8), BlockIsViolation: true, Run: cdcnmon.RunC12Mismatch},
 			{Name: "inputs/reused-notation", Count: core.FixedCount(8000, 150000), BlockIsViolation: true, Run: func(c *core.Ctx, idx int) { cdcnmon.RunReusedNotation(c, "C12") }},
 			{Name: "m1/scanner-parser-schedules", Pool: "m1", Count: core.FixedCount(300, 1500), CPULimit: 600,
@@ -38,6 +39,7 @@ func init() {
 			{Name: "inputs/injected-character", Count: core.FixedCount(10000, 300000), BlockIsViolation: true, Run: func(c *core.Ctx, idx int) { cdcnmon.RunC12Injection(c) }},
 		},
 		Repro: map[string]func() (bool, string){
+			"c12.deep-set":       cdcnmon.ReproDeepSet,
 			"c12.nil-token":      cdcnmon.ReproNilToken,
 			"c12.type-assertion": cdcnmon.ReproTypeAssertion,
 			"c12.scanner-leak":   cdcnmon.ReproScannerLeak,
